@@ -490,6 +490,17 @@ def r12_9(ctx: Ctx, rule: str = "R12.9") -> None:
                   f"`{norm(c)}` opens the member's path for writing without asking whether it leads to the archive NOW: with members 'd -> .' and 'd/<name of the archive>' the path did "
                   "not exist when _extract compared the planned outputs with the archive; the worker truncates the archive it is reading, extractall() returns normally",
                   construct="no identity test at the open")
+    # (f) the worker that does the writing knows the archive: `reset()`, `test()` and `testzip()` put a NEW Worker in place, so the identity of the
+    # archive is handed to `self.worker` in _extract itself, on the way to every worker call - not once when the archive is opened
+    wc_ = [c for c in q.calls(f) if "py7zr:Worker.extract" in shared.targets_of(ctx, f, c)]
+    gives = [n for n in walk(f.node) if isinstance(n, ast.Assign) and any(isinstance(t_, ast.Attribute) and norm(t_.value) == "self.worker" for t_ in n.targets)
+             and any(isinstance(x, ast.Call) and attr_tail(x) in ("_own_stats", "fstat") for x in ast.walk(n.value))]
+    for c in wc_:
+        ok = any(cfg.dominates(q.node_for(f, g_), q.node_for(f, c)) for g_ in gives)
+        ctx.check(ok, rule, f, c, "the extracting worker is told which file(s) the archive is, in every extraction",
+                  "_extract starts the worker without handing it the identity of the archive (`self.worker.<field> = self._own_stats()` on the way to the call): reset(), test() and "
+                  "testzip() replace the worker, so after any of them the test 'would this write go over the archive' is off and 'd -> .' + 'd/<archive name>' overwrites the archive",
+                  construct="worker without the archive's identity")
     # the comparison is with the file the path LEADS to (open() follows links): the identity helper looks at its argument with stat, not lstat
     for m in [mm for mm in cls.methods.values() if any(isinstance(y, ast.Call) and attr_tail(y) in ("samestat",) for y in walk(mm.node))]:
         cond_l = {id(y) for ie in walk(m.node) if isinstance(ie, ast.IfExp) and any(isinstance(z, ast.Name) and z.id in m.params[1:] for z in ast.walk(ie.test))
